@@ -4,7 +4,10 @@ package main
 // on boundary-exhaustive and random field values, against the Lean model.
 
 import (
+	"bytes"
+
 	"fmt"
+	"github.com/cosmos/cosmos-sdk/types/bech32"
 	"math/rand"
 	"strings"
 
@@ -115,7 +118,12 @@ func init() {
 		e := &vbEnv{s: s, seen: map[string]bool{}}
 		good := sdk.AccAddress([]byte("a-20-byte-address-xx")).String()
 		good2 := sdk.AccAddress([]byte("b")).String() // 1-byte address
-		addrs := []string{good, good2, strings.ToUpper(good), "", " ", "x", good + "x", " " + good, "cosmos1qypqxpq9qcrsszg2pvxq6rs0zqg3yyc5lzv7xu", good[:len(good)-1]}
+		// right prefix and checksum, but a payload no address can have: 0 bytes, 256 bytes (and the longest admitted, 255)
+		emptyPayload, _ := bech32.ConvertAndEncode("panacea", []byte{})
+		longPayload, _ := bech32.ConvertAndEncode("panacea", bytes.Repeat([]byte{7}, 256))
+		maxPayload, _ := bech32.ConvertAndEncode("panacea", bytes.Repeat([]byte{7}, 255))
+		addrs := []string{good, good2, strings.ToUpper(good), "", " ", "x", good + "x", " " + good, "cosmos1qypqxpq9qcrsszg2pvxq6rs0zqg3yyc5lzv7xu", good[:len(good)-1],
+			emptyPayload, longPayload, maxPayload}
 		pickA := func() string {
 			if rng.Intn(3) == 0 {
 				return addrs[rng.Intn(len(addrs))]
@@ -254,7 +262,7 @@ func init() {
 			listed := &didtypes.VerificationMethod{Id: it.did + "#k1", Type: didtypes.ES256K_2019, Controller: it.did, PublicKeyBase58: it.keys[0].b58}
 			dedVM := didtypes.VerificationMethod{Id: it.did + "#x", Type: didtypes.ES256K_2019, Controller: it.did, PublicKeyBase58: it.keys[1].b58}
 			shapes := [][]didtypes.VerificationRelationship{
-				{rel(it.did + "#x")},                    // dangling
+				{rel(it.did + "#x")},             // dangling
 				{ded(dedVM), rel(it.did + "#x")}, // dedicated, then a reference to it
 				{rel(it.did + "#x"), ded(dedVM)}, // reference first
 				{ded(dedVM)},                     // dedicated alone
